@@ -172,6 +172,8 @@ type Loc struct {
 	idx  string
 	path []pathStep
 	gt   types.Type // type of the content
+	sl   string     // for elements addressed through a slice value: the slice term ...
+	si   string     // ... and the index into it (loads then use elem_X for clean triggers)
 }
 
 func (e *Engine) heapSort(name string) string {
@@ -189,15 +191,32 @@ func (e *Engine) regHeap(name, sort string) string {
 	return name
 }
 
+// heapTypeName: heaps are partitioned by Go type identity (two pointers or
+// slices of different element types cannot alias in safe Go).
+func heapTypeName(t types.Type) string {
+	t = types.Unalias(t)
+	if b, ok := t.(*types.Basic); ok {
+		switch b.Kind() {
+		case types.Uint8:
+			return "uint8"
+		case types.Int32:
+			return "int32"
+		}
+	}
+	return shortTypeName(t)
+}
+
 func (e *Engine) cellHeap(t types.Type) string {
 	so := e.sorts.sortOf(t)
-	return e.regHeap("C."+so, "(Array Int "+so+")")
+	return e.regHeap("C."+heapTypeName(t), "(Array Int "+so+")")
 }
 
 func (e *Engine) elemHeap(t types.Type) string {
 	so := e.sorts.sortOf(t)
-	return e.regHeap("E."+so, "(Array Int (Array Int "+so+"))")
+	return e.regHeap("E."+heapTypeName(t), "(Array Int (Array Int "+so+"))")
 }
+
+func (e *Engine) byteHeap() string { return e.elemHeap(types.Typ[types.Uint8]) }
 
 func (e *Engine) fieldHeap(info *structInfo, i int) string {
 	return e.regHeap("F."+info.sort+"."+info.st.Field(i).Name(), "(Array Int "+info.fsorts[i]+")")
@@ -231,7 +250,11 @@ func (fc *FuncCtx) loadLoc(l *Loc, st *State) string {
 	case locCell, locField:
 		base = fmt.Sprintf("(select %s %s)", st.get(l.heap), l.ref)
 	case locElem:
-		base = fmt.Sprintf("(select (select %s %s) %s)", st.get(l.heap), l.ref, l.idx)
+		if l.sl != "" {
+			base = fmt.Sprintf("(%s %s %s %s)", e.elemFn(arrayElemSort(arrayElemSort(e.heapSort(l.heap)))), st.get(l.heap), l.sl, l.si)
+		} else {
+			base = fmt.Sprintf("(select (select %s %s) %s)", st.get(l.heap), l.ref, l.idx)
+		}
 	case locObj:
 		info := e.sorts.structInfoOf(l.gt)
 		if info.st.NumFields() == 0 {
